@@ -678,10 +678,11 @@ luaL_setfuncs({LUA_state_var}, {LUA_class_reg}, 0);
         # add guard
         guard = fname.replace(".", "_").upper()
         output.extend(["#ifndef %s" % guard, "#define %s" % guard])
-        util.extern_C(output, "begin")
 
+        # The library's header is C++: not inside extern "C".
         header_impl.write_headers(output)
 
+        util.extern_C(output, "begin")
         output.append('#include "lua.h"')
         output.extend(self.lua_type_structs)
         append_format(
